@@ -22,11 +22,12 @@ Definition mk_uni (t : cls) : uni :=
   {| is_letter := fun c => if c <? 128 then ascii_letter c else fst (lookup_cls t c);
      is_digit := fun c => if c <? 128 then ascii_digit c else snd (lookup_cls t c) |}.
 
-(* texts are compared by a polynomial hash over their code points modulo 2^64
-   (the harness computes the same sum with uint64 arithmetic) *)
+(* texts are compared by the polynomial hash h*33 + c + 1 over their code points
+   modulo 2^64 (shift and add: cheap under vm_compute; the harness computes the
+   same sum with uint64 arithmetic) *)
 Definition mask64 : N := 18446744073709551615.
 Definition hash_str (s : str) : N :=
-  fold_left (fun h c => N.land (h * 1000003 + c + 1) mask64) s 1469598103934665603.
+  fold_left (fun h c => N.land (N.shiftl h 5 + h + c + 1) mask64) s 1469598103934665603.
 
 Inductive case :=
 | CFile (t : cls) (c : root) (accepted : bool) (static dynamic apps cursor : list N)
